@@ -21,6 +21,14 @@ class Crash(Exception):
     pass
 
 
+class Watchdog(BaseException):
+    """raised by the alarm; a BaseException so that `except Exception` in TestEnvironment.run cannot swallow it"""
+
+
+def _on_alarm(signum, frame):
+    raise Watchdog('scenario exceeded its time budget')
+
+
 class TablePass(AbstractPass):
     """stub pass defined by finite tables over content ids (see DESIGN §3.3)"""
 
@@ -129,7 +137,8 @@ def run_real(scen, workdir, rng=None):
             else:
                 pending.append((keyidx.get(repr(tm.current_pass), -1), files.index(msg[len('cache hit for '):])))
     h = H()
-    logger.addHandler(h)
+    old_handlers = logger.handlers[:]
+    logger.handlers = [h]
     logger.setLevel(logging.INFO)
 
     def resolve():
@@ -159,6 +168,9 @@ def run_real(scen, workdir, rng=None):
                 obs['marked'].append(('P', keyidx.get(repr(pass_), -1), len(obs['log'])))
                 return orp(pass_)
             tm.run_pass = rp
+            import signal
+            signal.signal(signal.SIGALRM, _on_alarm)
+            signal.setitimer(signal.ITIMER_REAL, scen.get('budget_s', 20))
             try:
                 if scen.get('mode') == 'pass':
                     tm.run_pass(passes[scen['groups']['main'][0]])
@@ -171,13 +183,15 @@ def run_real(scen, workdir, rng=None):
                 name = type(e).__name__
                 obs['outcome'] = {'Foreign': 'ForeignError'}.get(name, name)
                 obs['error_text'] = str(e)[:200]
+            finally:
+                signal.setitimer(signal.ITIMER_REAL, 0)
             resolve()
             st = tm.pass_statistic.stats
             obs['stats'] = {keyidx[k]: (v.worked, v.failed, v.totally_executed) for k, v in st.items() if k in keyidx}
             obs['seconds'] = {keyidx[k]: v.total_seconds for k, v in st.items() if k in keyidx}
             obs['futures_left'] = len(getattr(tm, 'futures', []) or [])
     finally:
-        logger.removeHandler(h)
+        logger.handlers = old_handlers
         logger.setLevel(saved_level)
         testing.TestEnvironment.run_test = saved_rt
         for k, v in saved_consts.items():
